@@ -65,7 +65,8 @@ def confirm_integration(h, ov, logdir, replay_path, testfile):
     lf = os.path.join(logdir, h.name + ".native.log")
     try:
         with open(lf, "w") as f:
-            subprocess.run(["cargo", "test", "--offline", "--test", name] + ([tfilter] if tfilter else []) + ["--", "--test-threads", "1"], cwd=work, stdout=f,
+            rel = ["--release"] if h.overlay == "e1r" else []  # release semantics: replay in the profile users run
+            subprocess.run(["cargo", "test", "--offline"] + rel + ["--test", name] + ([tfilter] if tfilter else []) + ["--", "--test-threads", "1"], cwd=work, stdout=f,
                            stderr=subprocess.STDOUT, env=env, timeout=1200)
     except subprocess.TimeoutExpired:
         return None, "native replay timed out (see %s)" % lf
@@ -73,7 +74,7 @@ def confirm_integration(h, ov, logdir, replay_path, testfile):
     shutil.rmtree(work, ignore_errors=True)
     with open(replay_path, "a") as f:
         f.write("\n// ---- native confirmation through the real crates and the public API ----\n")
-        f.write("// run-native: cp /verif/replay/%s <xt checkout>/tests/ && cargo test --offline --test %s\n" % (testfile, name))
+        f.write("// run-native: cp /verif/replay/%s <xt checkout>/tests/ && cargo test --offline %s--test %s\n" % (testfile, "--release " if h.overlay == "e1r" else "", name))
         for line in re.findall(r"^\d+ violations, first:.*$|^.*panicked at.*\n.*$", out, re.M)[:5]:
             f.write("// " + line.replace("\n", " ")[:600] + "\n")
     if re.search(r"test result: FAILED", out):
@@ -83,6 +84,8 @@ def confirm_integration(h, ov, logdir, replay_path, testfile):
         # std's debug-profile check of an unsafe precondition (e.g. Vec::set_len beyond the capacity) fired: the real
         # code committed the undefined behaviour the harness flagged, and only the debug build notices
         return True, "the real code aborts on a violated unsafe precondition (non-unwinding panic) - undefined behaviour in a release build"
+    if re.search(r"SIGSEGV|signal: 11|SIGBUS|signal: 7", out):
+        return True, "the real code dies from a memory fault (SIGSEGV) in the native run"
     if re.search(r"test result: ok\. [1-9]", out):
         return False, "the native single-fault sweep through the real crates finds nothing"
     return None, "native replay did not run (see %s)" % lf
